@@ -92,8 +92,15 @@ class Walker:
             return dims.of_dimension(e.dimension)
         if e.is_Number or e.is_NumberSymbol or e is sp.I:
             return ANY if is_absorbing(e) else ONE
-        if hasattr(e, "factor") and hasattr(e, "wrap_code"):  # Symbolic wrapper: own inference
-            return self.dim(e.factor)
+        if hasattr(e, "factor") and hasattr(e, "wrap_code"):
+            # Symbolic wrapper (average, finite difference, differential): it carries a declared
+            # dimension, which must be the one of its operand
+            inner = self.dim(e.factor)
+            declared = dims.of_dimension(e.dimension)
+            if not dims.same(inner, declared):
+                raise Inhomogeneous(f"wrapper '{_s(e)}' declares dimension {declared} but its operand "
+                    f"has {inner}")
+            return declared if isinstance(inner, AnyDim) else inner
         if isinstance(e, sp.Indexed):
             for i in e.indices:
                 self.dim(i)
